@@ -6,9 +6,12 @@ import (
 	"bytes"
 	"encoding/json"
 	"fmt"
+	"syscall"
 	"testing"
+	"verif/refs/sm3ref"
 
 	"github.com/bilibili/smgo/sm2"
+	"github.com/bilibili/smgo/sm3"
 	"verif/refs/sm2ref"
 	"verif/vx"
 )
@@ -56,6 +59,18 @@ func c13eval(r *vx.R, c c13case) {
 			sm2.ZA(id, c13pxBuf, c13pyBuf)
 			sm2.Verify(id, c13pxBuf, c13pyBuf, []byte("previous"), other[1], other[2])
 			sm2.Sign(id, c13pxBuf, c13pyBuf, stream(b32(bigOne)), other[0], []byte("previous"))
+			// other users of the hash package in the same process: the one-shot entry point, a hash object that is written,
+			// summed, reset and abandoned half way
+			sm3.SumSM3(id)
+			h := sm3.New()
+			h.Write(id)
+			h.Sum(nil)
+			h.Reset()
+			h.Write([]byte("abandoned"))
+			// calls that fail
+			sm2.ZA(make([]byte, 8192), c13pxBuf, c13pyBuf)
+			sm2.Sign(id, c13pxBuf, c13pyBuf, stream(), other[0], []byte("previous"))
+			sm2.Verify(id, c13pyBuf, c13pxBuf, []byte("previous"), other[1], other[2])
 		})
 	}
 	copy(id, vx.Fill(fmt.Sprintf("id%d", c.IDLen%7), c.IDLen))
@@ -160,7 +175,7 @@ func c13eval(r *vx.R, c c13case) {
 }
 
 func TestVX_C13(t *testing.T) {
-	r := vx.Begin("C13", "za-wrappers", "ZA for every id length 0..8200 plus {16384, 65535, 65536} with two public keys against SM3ref(ENTL||id||a||b||Gx||Gy||x||y) (refusal exactly from 8192 bytes); Sign/SignZa/SignHashed under one nonce stream and Verify/VerifyZa for every message length 0..200 x id length {0,16,53,54,8191} (thorough: 0..300 x {0,1,16,52,53,54,55,118,8191}) against sm2ref on e=SM3ref(ZAref||M); message and id binding. Shape=(function, id length, message length, key)")
+	r := vx.Begin("C13", "za-wrappers", "ZA for every id length 0..8200 plus {16384, 65535, 65536} with two public keys against SM3ref(ENTL||id||a||b||Gx||Gy||x||y) (refusal exactly from 8192 bytes); Sign/SignZa/SignHashed under one nonce stream and Verify/VerifyZa for every message length 0..200 x id length {0,16,53,54,8191} (thorough: 0..300 x {0,1,16,52,53,54,55,118,8191}) against sm2ref on e=SM3ref(ZAref||M); message and id binding; before every case the same buffers serve another user and the process makes other uses of the hash package (one-shot SumSM3, an abandoned hash object) and failing calls; [thorough] SignZa/VerifyZa on messages of 2^29-33, 2^29-32 and 2^29 zero bytes (bit length of ZA||M crossing 2^32). Shape=(function, id length, message length, key)")
 	defer r.End()
 	selfCheck()
 	if raw, ok := vx.Replay("za-wrappers"); ok {
@@ -196,6 +211,61 @@ func TestVX_C13(t *testing.T) {
 	for _, il := range ids {
 		for ml := 0; ml <= maxMsg; ml++ {
 			run(c13case{"wrap", il, ml, ml % 2, fmt.Sprintf("id%d:msg%d", il, ml)})
+		}
+	} // messages whose bit length (with the 32 bytes of ZA in front) crosses 2^32: thorough tier only (half a gigabyte is
+	// hashed three times per case). The message is untouched anonymous memory (all zero, costs no RAM); e comes from the
+	// streaming reference.
+	if vx.Thorough() {
+		c13init()
+		k0 := c13keys[0]
+		za := vx.Fill("c13hugeza", 32)
+		for _, ml := range []int{1<<29 - 33, 1<<29 - 32, 1 << 29} {
+			n++
+			if !vx.MineIdx(n) {
+				continue
+			}
+			r.Eval(2)
+			cs := c13case{"wrap-huge", 0, ml, 0, fmt.Sprintf("msg%d", ml)}
+			msg, err := syscall.Mmap(-1, 0, ml, syscall.PROT_READ, syscall.MAP_ANON|syscall.MAP_PRIVATE)
+			if err != nil {
+				panic("harness: mmap: " + err.Error())
+			}
+			st := sm3ref.NewStream()
+			st.Write(za)
+			zero := make([]byte, 1<<20)
+			for left := ml; left > 0; {
+				c := len(zero)
+				if c > left {
+					c = left
+				}
+				st.Write(zero[:c])
+				left -= c
+			}
+			e := st.Sum()
+			kk := b32(modN(bi(vx.Fill("c13hugek", 32))))
+			want, werr := sm2ref.Sign(stream(kk), bi(k0[0]), e[:])
+			if werr != nil {
+				panic(werr)
+			}
+			var rr, ss []byte
+			var serr error
+			var vok bool
+			kind, pm := vx.Try(func() {
+				rr, ss, serr = sm2.SignZa(stream(kk), k0[0], za, msg)
+				vok, _ = sm2.VerifyZa(k0[1], k0[2], za, msg, want.R, want.S)
+			})
+			if kind != "" {
+				r.Violation("wrap:huge:panic", pm, cs)
+			} else {
+				if serr != nil || !bytes.Equal(rr, want.R) || !bytes.Equal(ss, want.S) {
+					r.Violation("wrap:huge:SignZa", fmt.Sprintf("SignZa of a %d-byte message differs from SignHashed on e=SM3(ZA||M): err=%v", ml, serr), cs)
+				}
+				if !vok {
+					r.Violation("wrap:huge:VerifyZa", fmt.Sprintf("VerifyZa rejects the standard's signature on a %d-byte message", ml), cs)
+				}
+			}
+			syscall.Munmap(msg)
+			r.Shape("wrap-huge:" + cs.Shape)
 		}
 	}
 }
